@@ -104,7 +104,7 @@ def has_empty_item_then_more(blocks):
     return False
 
 
-EMPTY_MARKER_LINE = __import__('re').compile(r'^((?:> ?| )*)(?:(?:[-+*]|\d{1,9}[.)]) +)*(?:[-+*]|\d{1,9}[.)]) ?$')
+EMPTY_MARKER_LINE = __import__('re').compile(r'^((?:> ?|(?:[-+*]|\d{1,9}[.)]) +| )*)(?:[-+*]|\d{1,9}[.)]) ?$')
 
 
 def without_blank_after_empty_items(m):
@@ -117,7 +117,7 @@ def without_blank_after_empty_items(m):
         if blank is not None and line.replace(' ', '') == blank and i < len(parts) - 1:
             continue
         mm = EMPTY_MARKER_LINE.match(line)
-        blank = mm.group(1).replace(' ', '') if mm else None
+        blank = '>' * mm.group(1).count('>') if mm else None
         out.append(line)
     return '\n'.join(out)
 
